@@ -49,12 +49,17 @@ Inductive gstate := GInit | GLive | GFin.
 Inductive place := LNone | LG (k : nat) | LL (t : nat) | LH (t : nat) | LRun (t : nat) | LSlot | LDead.
 Inductive qid := QG (k : nat) | QL (t : nat).
 
+(* control point of the wait()/join() call in progress on a JoinHandle; it is kept with the Join object
+   (the handle has one owner, so there is at most one such call) *)
+Inductive jpc :=
+  | JW0 (m : jmode) | JW1 (m : jmode) | JW2 (m : jmode) (b : nat)
+  | JW3 (m : jmode) (b : nat) | JW3p (m : jmode) (b : nat) | JW4 (m : jmode) (b : nat)
+  | JT1 | JT2.
+
 Inductive pc :=
   | Idle
   | SG (c : nat) | SP (c k : nat) | SW (k : nat) | SL (c : nat)
-  | JW0 (d : nat) (m : jmode) | JW1 (d : nat) (m : jmode) | JW2 (d : nat) (m : jmode) (b : nat)
-  | JW3 (d : nat) (m : jmode) (b : nat) | JW3p (d : nat) (m : jmode) (b : nat) | JW4 (d : nat) (m : jmode) (b : nat)
-  | JT1 (d : nat) | JT2 (d : nat)
+  | InJ (d : nat)                      (* inside wait()/join() of coroutine d: see jcall *)
   | ID0 (d : nat)
   | CF (v : Z) | CT1 | CT2 | CT3 (w : nat) | CRet
   | PP0 (v : Z) | PT1 | PT2 | PT3 (w : nat) | PD.
@@ -72,7 +77,7 @@ Record cor := {
   jwake : option nat;       (* Join.to_wake: a blocker *)
   pkt : option Z;           (* packet *)
   pan : option Z;           (* panic payload *)
-  jbusy : bool;             (* the JoinHandle is inside a wait()/join() call (it has one owner) *)
+  jcall : option (ag * jpc); (* the wait()/join() call in progress on the JoinHandle: who, and where it is *)
   jdone : bool;             (* join(self) consumed the handle *)
   (* ghost *)
   loc : place;
@@ -91,7 +96,7 @@ Record st := {
   dead : list nat;
   tpc : nat -> pc;          (* control point of thread t's own code *)
   tok : nat -> bool;        (* token of blocker b (Blocker::current() makes a new one for every iteration of Join::wait) *)
-  bown : nat -> ag;         (* who made blocker b *)
+  bjoin : nat -> nat;       (* ghost: the Join object blocker b was made for *)
   nextb : nat;
   punp : list nat;          (* unpark(b) issued by a trigger, effect pending *)
   rr : nat;                 (* NEXT_THREAD_ID *)
@@ -102,48 +107,48 @@ Definition ag_eqb (x y : ag) : bool :=
   match x, y with AT a, AT b => Nat.eqb a b | AC a, AC b => Nat.eqb a b | _, _ => false end.
 
 Definition cor0 := {| spawned := false; gst := GInit; upc := Idle; cancelled := false; jstate := true; jwake := None;
-                      pkt := None; pan := None; jbusy := false; jdone := false;
+                      pkt := None; pan := None; jcall := None; jdone := false;
                       loc := LNone; bodycnt := 0; outcome := None; ptaken := false; jret := None |}.
 Definition cor_new (l : place) := {| spawned := true; gst := GInit; upc := Idle; cancelled := false; jstate := true; jwake := None;
-                      pkt := None; pan := None; jbusy := false; jdone := false;
+                      pkt := None; pan := None; jcall := None; jdone := false;
                       loc := l; bodycnt := 0; outcome := None; ptaken := false; jret := None |}.
 
 Definition mkc sp g u cn js jw pk pn jb jd l bc oc pt jr :=
-  {| spawned := sp; gst := g; upc := u; cancelled := cn; jstate := js; jwake := jw; pkt := pk; pan := pn; jbusy := jb; jdone := jd;
+  {| spawned := sp; gst := g; upc := u; cancelled := cn; jstate := js; jwake := jw; pkt := pk; pan := pn; jcall := jb; jdone := jd;
      loc := l; bodycnt := bc; outcome := oc; ptaken := pt; jret := jr |}.
-Definition c_upc (x : cor) u := mkc (spawned x) (gst x) u (cancelled x) (jstate x) (jwake x) (pkt x) (pan x) (jbusy x) (jdone x) (loc x) (bodycnt x) (outcome x) (ptaken x) (jret x).
-Definition c_loc (x : cor) l := mkc (spawned x) (gst x) (upc x) (cancelled x) (jstate x) (jwake x) (pkt x) (pan x) (jbusy x) (jdone x) l (bodycnt x) (outcome x) (ptaken x) (jret x).
-Definition c_canc (x : cor) b := mkc (spawned x) (gst x) (upc x) b (jstate x) (jwake x) (pkt x) (pan x) (jbusy x) (jdone x) (loc x) (bodycnt x) (outcome x) (ptaken x) (jret x).
-Definition c_jstate (x : cor) b := mkc (spawned x) (gst x) (upc x) (cancelled x) b (jwake x) (pkt x) (pan x) (jbusy x) (jdone x) (loc x) (bodycnt x) (outcome x) (ptaken x) (jret x).
-Definition c_jwake (x : cor) w := mkc (spawned x) (gst x) (upc x) (cancelled x) (jstate x) w (pkt x) (pan x) (jbusy x) (jdone x) (loc x) (bodycnt x) (outcome x) (ptaken x) (jret x).
-Definition c_pkt (x : cor) p := mkc (spawned x) (gst x) (upc x) (cancelled x) (jstate x) (jwake x) p (pan x) (jbusy x) (jdone x) (loc x) (bodycnt x) (outcome x) (ptaken x) (jret x).
-Definition c_pan (x : cor) p := mkc (spawned x) (gst x) (upc x) (cancelled x) (jstate x) (jwake x) (pkt x) p (jbusy x) (jdone x) (loc x) (bodycnt x) (outcome x) (ptaken x) (jret x).
-Definition c_jbusy (x : cor) b := mkc (spawned x) (gst x) (upc x) (cancelled x) (jstate x) (jwake x) (pkt x) (pan x) b (jdone x) (loc x) (bodycnt x) (outcome x) (ptaken x) (jret x).
+Definition c_upc (x : cor) u := mkc (spawned x) (gst x) u (cancelled x) (jstate x) (jwake x) (pkt x) (pan x) (jcall x) (jdone x) (loc x) (bodycnt x) (outcome x) (ptaken x) (jret x).
+Definition c_loc (x : cor) l := mkc (spawned x) (gst x) (upc x) (cancelled x) (jstate x) (jwake x) (pkt x) (pan x) (jcall x) (jdone x) l (bodycnt x) (outcome x) (ptaken x) (jret x).
+Definition c_canc (x : cor) b := mkc (spawned x) (gst x) (upc x) b (jstate x) (jwake x) (pkt x) (pan x) (jcall x) (jdone x) (loc x) (bodycnt x) (outcome x) (ptaken x) (jret x).
+Definition c_jstate (x : cor) b := mkc (spawned x) (gst x) (upc x) (cancelled x) b (jwake x) (pkt x) (pan x) (jcall x) (jdone x) (loc x) (bodycnt x) (outcome x) (ptaken x) (jret x).
+Definition c_jwake (x : cor) w := mkc (spawned x) (gst x) (upc x) (cancelled x) (jstate x) w (pkt x) (pan x) (jcall x) (jdone x) (loc x) (bodycnt x) (outcome x) (ptaken x) (jret x).
+Definition c_pkt (x : cor) p := mkc (spawned x) (gst x) (upc x) (cancelled x) (jstate x) (jwake x) p (pan x) (jcall x) (jdone x) (loc x) (bodycnt x) (outcome x) (ptaken x) (jret x).
+Definition c_pan (x : cor) p := mkc (spawned x) (gst x) (upc x) (cancelled x) (jstate x) (jwake x) (pkt x) p (jcall x) (jdone x) (loc x) (bodycnt x) (outcome x) (ptaken x) (jret x).
+Definition c_jcall (x : cor) b := mkc (spawned x) (gst x) (upc x) (cancelled x) (jstate x) (jwake x) (pkt x) (pan x) b (jdone x) (loc x) (bodycnt x) (outcome x) (ptaken x) (jret x).
 (* join returns r: the handle is consumed *)
-Definition c_jfin (x : cor) r := mkc (spawned x) (gst x) (upc x) (cancelled x) (jstate x) (jwake x) (pkt x) (pan x) false true (loc x) (bodycnt x) (outcome x) (ptaken x) (Some r).
-Definition c_ptaken (x : cor) := mkc (spawned x) (gst x) (upc x) (cancelled x) (jstate x) (jwake x) (pkt x) (pan x) (jbusy x) (jdone x) (loc x) (bodycnt x) (outcome x) true (jret x).
+Definition c_jfin (x : cor) r := mkc (spawned x) (gst x) (upc x) (cancelled x) (jstate x) (jwake x) (pkt x) (pan x) None true (loc x) (bodycnt x) (outcome x) (ptaken x) (Some r).
+Definition c_ptaken (x : cor) := mkc (spawned x) (gst x) (upc x) (cancelled x) (jstate x) (jwake x) (pkt x) (pan x) (jcall x) (jdone x) (loc x) (bodycnt x) (outcome x) true (jret x).
 (* the generator is resumed: the first resumption enters the closure body *)
-Definition c_resume (x : cor) u l :=
-  mkc (spawned x) (match gst x with GInit => GLive | g => g end) u (cancelled x) (jstate x) (jwake x) (pkt x) (pan x) (jbusy x) (jdone x) l
+Definition c_resume (x : cor) l :=
+  mkc (spawned x) (match gst x with GInit => GLive | g => g end) (upc x) (cancelled x) (jstate x) (jwake x) (pkt x) (pan x) (jcall x) (jdone x) l
       (match gst x with GInit => S (bodycnt x) | _ => bodycnt x end) (outcome x) (ptaken x) (jret x).
 (* the body ends: by return (still GLive until the wrapper returns), by panic / cancel unwinding *)
-Definition c_end (x : cor) g u o := mkc (spawned x) g u (cancelled x) (jstate x) (jwake x) (pkt x) (pan x) (jbusy x) (jdone x) (loc x) (bodycnt x) (Some o) (ptaken x) (jret x).
-Definition c_gst (x : cor) g := mkc (spawned x) g (upc x) (cancelled x) (jstate x) (jwake x) (pkt x) (pan x) (jbusy x) (jdone x) (loc x) (bodycnt x) (outcome x) (ptaken x) (jret x).
+Definition c_end (x : cor) g u o := mkc (spawned x) g u (cancelled x) (jstate x) (jwake x) (pkt x) (pan x) (jcall x) (jdone x) (loc x) (bodycnt x) (Some o) (ptaken x) (jret x).
+Definition c_gst (x : cor) g := mkc (spawned x) g (upc x) (cancelled x) (jstate x) (jwake x) (pkt x) (pan x) (jcall x) (jdone x) (loc x) (bodycnt x) (outcome x) (ptaken x) (jret x).
 
 Definition mk c g l h k sl d tp tk bo nb pu r n :=
-  {| co := c; gq := g; lq := l; hand := h; stk := k; slots := sl; dead := d; tpc := tp; tok := tk; bown := bo; nextb := nb; punp := pu; rr := r; nw := n |}.
-Definition s_co s f := mk f (gq s) (lq s) (hand s) (stk s) (slots s) (dead s) (tpc s) (tok s) (bown s) (nextb s) (punp s) (rr s) (nw s).
-Definition s_gq s f := mk (co s) f (lq s) (hand s) (stk s) (slots s) (dead s) (tpc s) (tok s) (bown s) (nextb s) (punp s) (rr s) (nw s).
-Definition s_lq s f := mk (co s) (gq s) f (hand s) (stk s) (slots s) (dead s) (tpc s) (tok s) (bown s) (nextb s) (punp s) (rr s) (nw s).
-Definition s_hand s f := mk (co s) (gq s) (lq s) f (stk s) (slots s) (dead s) (tpc s) (tok s) (bown s) (nextb s) (punp s) (rr s) (nw s).
-Definition s_stk s f := mk (co s) (gq s) (lq s) (hand s) f (slots s) (dead s) (tpc s) (tok s) (bown s) (nextb s) (punp s) (rr s) (nw s).
-Definition s_slots s f := mk (co s) (gq s) (lq s) (hand s) (stk s) f (dead s) (tpc s) (tok s) (bown s) (nextb s) (punp s) (rr s) (nw s).
-Definition s_dead s f := mk (co s) (gq s) (lq s) (hand s) (stk s) (slots s) f (tpc s) (tok s) (bown s) (nextb s) (punp s) (rr s) (nw s).
-Definition s_tpc s f := mk (co s) (gq s) (lq s) (hand s) (stk s) (slots s) (dead s) f (tok s) (bown s) (nextb s) (punp s) (rr s) (nw s).
-Definition s_tok s f := mk (co s) (gq s) (lq s) (hand s) (stk s) (slots s) (dead s) (tpc s) f (bown s) (nextb s) (punp s) (rr s) (nw s).
-Definition s_newb s a := mk (co s) (gq s) (lq s) (hand s) (stk s) (slots s) (dead s) (tpc s) (upd (tok s) (nextb s) false) (upd (bown s) (nextb s) a) (S (nextb s)) (punp s) (rr s) (nw s).
-Definition s_punp s f := mk (co s) (gq s) (lq s) (hand s) (stk s) (slots s) (dead s) (tpc s) (tok s) (bown s) (nextb s) f (rr s) (nw s).
-Definition s_rr s f := mk (co s) (gq s) (lq s) (hand s) (stk s) (slots s) (dead s) (tpc s) (tok s) (bown s) (nextb s) (punp s) f (nw s).
+  {| co := c; gq := g; lq := l; hand := h; stk := k; slots := sl; dead := d; tpc := tp; tok := tk; bjoin := bo; nextb := nb; punp := pu; rr := r; nw := n |}.
+Definition s_co s f := mk f (gq s) (lq s) (hand s) (stk s) (slots s) (dead s) (tpc s) (tok s) (bjoin s) (nextb s) (punp s) (rr s) (nw s).
+Definition s_gq s f := mk (co s) f (lq s) (hand s) (stk s) (slots s) (dead s) (tpc s) (tok s) (bjoin s) (nextb s) (punp s) (rr s) (nw s).
+Definition s_lq s f := mk (co s) (gq s) f (hand s) (stk s) (slots s) (dead s) (tpc s) (tok s) (bjoin s) (nextb s) (punp s) (rr s) (nw s).
+Definition s_hand s f := mk (co s) (gq s) (lq s) f (stk s) (slots s) (dead s) (tpc s) (tok s) (bjoin s) (nextb s) (punp s) (rr s) (nw s).
+Definition s_stk s f := mk (co s) (gq s) (lq s) (hand s) f (slots s) (dead s) (tpc s) (tok s) (bjoin s) (nextb s) (punp s) (rr s) (nw s).
+Definition s_slots s f := mk (co s) (gq s) (lq s) (hand s) (stk s) f (dead s) (tpc s) (tok s) (bjoin s) (nextb s) (punp s) (rr s) (nw s).
+Definition s_dead s f := mk (co s) (gq s) (lq s) (hand s) (stk s) (slots s) f (tpc s) (tok s) (bjoin s) (nextb s) (punp s) (rr s) (nw s).
+Definition s_tpc s f := mk (co s) (gq s) (lq s) (hand s) (stk s) (slots s) (dead s) f (tok s) (bjoin s) (nextb s) (punp s) (rr s) (nw s).
+Definition s_tok s f := mk (co s) (gq s) (lq s) (hand s) (stk s) (slots s) (dead s) (tpc s) f (bjoin s) (nextb s) (punp s) (rr s) (nw s).
+Definition s_newb s d := mk (co s) (gq s) (lq s) (hand s) (stk s) (slots s) (dead s) (tpc s) (upd (tok s) (nextb s) false) (upd (bjoin s) (nextb s) d) (S (nextb s)) (punp s) (rr s) (nw s).
+Definition s_punp s f := mk (co s) (gq s) (lq s) (hand s) (stk s) (slots s) (dead s) (tpc s) (tok s) (bjoin s) (nextb s) f (rr s) (nw s).
+Definition s_rr s f := mk (co s) (gq s) (lq s) (hand s) (stk s) (slots s) (dead s) (tpc s) (tok s) (bjoin s) (nextb s) (punp s) f (nw s).
 
 Definition rm := remove Nat.eq_dec.
 Definition memb (c : nat) (l : list nat) : bool := existsb (Nat.eqb c) l.
@@ -192,6 +197,21 @@ Inductive action :=
   | Wake (c : nat) (q : qid)
   | DoUnpark (w : nat) (q : qid).
 
+(* the control point of agent a's call on the handle of d *)
+Definition call_of s (a : ag) (d : nat) : option jpc :=
+  match jcall (co s d) with Some (a', p) => if ag_eqb a' a then Some p else None | None => None end.
+Definition set_call s (a : ag) (d : nat) (p : jpc) : st := on_co s d (fun x => c_jcall x (Some (a, p))).
+Definition end_call s (d : nat) : st := on_co s d (fun x => c_jcall x None).
+
+(* coroutine c is resumed: if it was suspended in Blocker::park of Join::wait the park returns;
+   Park::park_timeout clears the token after it was resumed, whatever the reason *)
+Definition park_ret (s : st) (c : nat) : st :=
+  match upc (co s c) with
+  | InJ d => match call_of s (AC c) d with
+             | Some (JW3p m b) => s_tok (set_call s (AC c) d (JW0 m)) (upd (tok s) b false)
+             | _ => s end
+  | _ => s end.
+
 Definition pc_idle (p : pc) : bool := match p with Idle => true | _ => false end.
 
 (* Join::trigger's two accesses after the store, shared by wrapper and panic path *)
@@ -213,8 +233,10 @@ Definition step (s : st) (ac : action) : option st :=
   | AJoin t d m =>
       match cur s t with
       | Some a =>
-        if pc_idle (apc s a) && live_ag s a && spawned (co s d) && negb (jbusy (co s d)) && negb (jdone (co s d))
-        then Some (set_apc (on_co s d (fun x => c_jbusy x true)) a (JW0 d m))
+        if pc_idle (apc s a) && live_ag s a && spawned (co s d) && negb (jdone (co s d))
+        then match jcall (co s d) with
+             | None => Some (set_apc (set_call s a d (JW0 m)) a (InJ d))
+             | Some _ => None end
         else None
       | None => None end
   | AIsDone t d =>
@@ -228,12 +250,15 @@ Definition step (s : st) (ac : action) : option st :=
   | AYield t =>
       match stk s t with
       | FRun c :: rest =>
+          let go (s0 : st) := Some (add_hand (set_stk (on_co s0 c (fun x => c_loc x (LH t))) t (FKer c K0 :: rest)) t c) in
           match gst (co s c), upc (co s c) with
-          | GLive, Idle
-          | GLive, JW0 _ _          (* Park::drop of the blocker waits for the kernel half of the park with yield_now() *)
-          | GLive, CRet             (* the same when trigger drops the last reference to the waiter's blocker *)
-            => Some (add_hand (set_stk (on_co s c (fun x => c_loc x (LH t))) t (FKer c K0 :: rest)) t c)
-          | GLive, JW3 d m b => Some (add_hand (set_stk (on_co s c (fun x => c_loc (c_upc x (JW3p d m b)) (LH t))) t (FKer c K0 :: rest)) t c)
+          | GLive, Idle => go s
+          | GLive, CRet => go s        (* trigger drops the last reference to the waiter's blocker: Park::drop waits for the kernel half with yield_now() *)
+          | GLive, InJ d =>
+              match call_of s (AC c) d with
+              | Some (JW0 _) => go s   (* the same when Join::wait drops its blocker after the park *)
+              | Some (JW3 m b) => go (set_call s (AC c) d (JW3p m b))    (* Blocker::park *)
+              | _ => None end
           | _, _ => None end
       | _ => None end
   | AFinish t v =>
@@ -253,13 +278,18 @@ Definition step (s : st) (ac : action) : option st :=
           if (match v with None => cancelled (co s c) | Some _ => true end)
           then match gst (co s c), upc (co s c) with
                | GLive, Idle => go s
-               | GLive, JW0 d m | GLive, JW3 d m _ => go (on_co s d (fun x => c_jbusy x false))   (* unwinding out of Join::wait (cancelled in park) releases the handle *)
+               | GLive, InJ d =>      (* unwinding out of Join::wait (cancelled in park) releases the handle *)
+                   match call_of s (AC c) d with
+                   | Some (JW0 _) | Some (JW3 _ _) => go (end_call s d)
+                   | _ => None end
                | _, _ => None end
           else None
       | _ => None end
   | AFire t =>
       match stk s t, tpc s t with
-      | [], JW3p d m b => Some (s_tok (s_tpc s (upd (tpc s) t (JW0 d m))) (upd (tok s) b false))
+      | [], InJ d => match call_of s (AT t) d with
+                     | Some (JW3p m b) => Some (s_tok (set_call s (AT t) d (JW0 m)) (upd (tok s) b false))
+                     | _ => None end
       | _, _ => None end
   | AStep t =>
       match stk s t with
@@ -285,26 +315,29 @@ Definition step (s : st) (ac : action) : option st :=
                       then Some (set_apc (pushq (del_hand (on_co s c (fun x => c_loc x (LG k))) t c) (QG k) c) a (SW k))
                       else None
           | SW k => Some (set_apc s a Idle)
-          | JW0 d m => if jstate (co s d) then Some (set_apc s a (JW1 d m))
-                       else match m with
-                            | MWait => Some (set_apc (on_co s d (fun x => c_jbusy x false)) a Idle)
-                            | MJoin => Some (set_apc s a (JT1 d)) end
-          | JW1 d m => let b := nextb s in Some (set_apc (on_co (s_newb s a) d (fun x => c_jwake x (Some b))) a (JW2 d m b))
-          | JW2 d m b => Some (set_apc s a (if jstate (co s d) then JW3 d m b else JW4 d m b))
-          | JW4 d m b => Some (set_apc (on_co s d (fun x => c_jwake x None)) a (JW0 d m))
-          | JW3 d m b => if tok s b then Some (set_apc (s_tok s (upd (tok s) b false)) a (JW0 d m))
-                         else match a with
-                              | AT _ => Some (set_apc s a (JW3p d m b))
-                              | AC _ => None end     (* a coroutine parks by AYield *)
-          | JW3p d m b => match a with
-                          | AT _ => if tok s b then Some (set_apc (s_tok s (upd (tok s) b false)) a (JW0 d m)) else None
-                          | AC _ => None end
-          | JT1 d => match pkt (co s d) with
-                     | Some v => Some (set_apc (on_co s d (fun x => c_jfin (c_ptaken (c_pkt x None)) (RVal v))) a Idle)
-                     | None => Some (set_apc s a (JT2 d)) end
-          | JT2 d => match pan (co s d) with
-                     | Some v => Some (set_apc (on_co s d (fun x => c_jfin (c_pan x None) (RPan v))) a Idle)
-                     | None => Some (set_apc (on_co s d (fun x => c_jfin x RCancel)) a Idle) end
+          | InJ d =>
+              match call_of s a d with
+              | Some (JW0 m) => if jstate (co s d) then Some (set_call s a d (JW1 m))
+                                else match m with
+                                     | MWait => Some (set_apc (end_call s d) a Idle)
+                                     | MJoin => Some (set_call s a d JT1) end
+              | Some (JW1 m) => let b := nextb s in Some (on_co (s_newb s d) d (fun x => c_jcall (c_jwake x (Some b)) (Some (a, JW2 m b))))
+              | Some (JW2 m b) => Some (set_call s a d (if jstate (co s d) then JW3 m b else JW4 m b))
+              | Some (JW4 m b) => Some (on_co s d (fun x => c_jcall (c_jwake x None) (Some (a, JW0 m))))
+              | Some (JW3 m b) => if tok s b then Some (s_tok (set_call s a d (JW0 m)) (upd (tok s) b false))
+                                  else match a with
+                                       | AT _ => Some (set_call s a d (JW3p m b))
+                                       | AC _ => None end     (* a coroutine parks by AYield *)
+              | Some (JW3p m b) => match a with
+                                   | AT _ => if tok s b then Some (s_tok (set_call s a d (JW0 m)) (upd (tok s) b false)) else None
+                                   | AC _ => None end
+              | Some JT1 => match pkt (co s d) with
+                            | Some v => Some (set_apc (on_co s d (fun x => c_jfin (c_ptaken (c_pkt x None)) (RVal v))) a Idle)
+                            | None => Some (set_call s a d JT2) end
+              | Some JT2 => match pan (co s d) with
+                            | Some v => Some (set_apc (on_co s d (fun x => c_jfin (c_pan x None) (RPan v))) a Idle)
+                            | None => Some (set_apc (on_co s d (fun x => c_jfin x RCancel)) a Idle) end
+              | None => None end
           | ID0 d => Some (set_apc s a Idle)
           | CF v => match a with AC c => Some (on_co s c (fun x => c_upc (c_pkt x (Some v)) CT1)) | _ => None end
           | CT1 => match a with AC c => Some (on_co s c (fun x => c_upc (c_jstate x false) CT2)) | _ => None end
@@ -383,21 +416,18 @@ Definition step (s : st) (ac : action) : option st :=
   | DoUnpark w q =>
       if memb w (punp s)
       then let s1 := s_tok (s_punp s (rm1 w (punp s))) (upd (tok s) w true) in
-           match bown s w with
-           | AC c => if memb c (slots s1) && (match upc (co s c) with JW3p _ _ b => Nat.eqb b w | _ => false end)
-                     then Some (pushq (s_slots (on_co s1 c (fun x => c_loc x (qloc q))) (rm c (slots s1))) q c)
-                     else Some s1
-           | AT _ => Some s1 end
+           match jcall (co s (bjoin s w)) with
+           | Some (AC c, JW3p _ b) => if memb c (slots s1) && Nat.eqb b w
+                                      then Some (pushq (s_slots (on_co s1 c (fun x => c_loc x (qloc q))) (rm c (slots s1))) q c)
+                                      else Some s1
+           | _ => Some s1 end
       else None
   | Resume t c =>
       if memb c (hand s t) then
         match gst (co s c) with
         | GFin => None
         | _ =>
-          let u := match upc (co s c) with JW3p d m _ => JW0 d m | p => p end in
-          (* Park::park_timeout clears the token after it was resumed, whatever the reason *)
-          let tk := match upc (co s c) with JW3p _ _ b => upd (tok s) b false | _ => tok s end in
-          let s1 := s_tok (del_hand (on_co s c (fun x => c_resume x u (LRun t))) t c) tk in
+          let s1 := del_hand (on_co (park_ret s c) c (fun x => c_resume x (LRun t))) t c in
           match stk s t with
           | FKer c' KRun :: rest => if Nat.eqb c' c then Some (set_stk s1 t (FRun c :: FKer c KEnd :: rest)) else None
           | l =>
@@ -413,7 +443,7 @@ Definition step (s : st) (ac : action) : option st :=
   end.
 
 Definition init (workers : nat) : st :=
-  mk (fun _ => cor0) (fun _ => []) (fun _ => []) (fun _ => []) (fun _ => []) [] [] (fun _ => Idle) (fun _ => false) (fun _ => AT 0) 0 [] 0 workers.
+  mk (fun _ => cor0) (fun _ => []) (fun _ => []) (fun _ => []) (fun _ => []) [] [] (fun _ => Idle) (fun _ => false) (fun _ => 0) 0 [] 0 workers.
 
 Inductive Reach (w : nat) : st -> Prop :=
 | R0 : Reach w (init w)
